@@ -1248,9 +1248,13 @@ class TrajectoryStore:
                     f'hash of base file {check_associated.path}'
                 )
 
-        # Here, the `path`, `dataset`, `traj_dim`, `traj_var` and `size_index`
-        # fields are lists to support merged stores. In this case, we have a
-        # single file, so we put the values into singleton lists.
+        # Here, the `path`, `dataset`, `traj_dim` and `traj_var` fields are
+        # lists to support merged stores. In this case, we have a single file,
+        # so we put the values into singleton lists. The cumulative size index
+        # is only meaningful for (read-only) merged stores: a snapshot of the
+        # trajectory count taken here would go stale as soon as trajectories
+        # are added in APPEND mode, so single-file stores index the file
+        # directly.
         return TrajectoryStore.NcFiles(
             path=[nc_file],
             fieldsets=set(fieldset_names),
@@ -1259,7 +1263,7 @@ class TrajectoryStore:
             traj_var=[traj_var],
             species=species,
             groups=groups,
-            size_index=[len(traj_dim)],
+            size_index=None,
             title=title,
             comment=comment,
             history=history,
